@@ -1,0 +1,251 @@
+//go:build verif
+
+package bttest
+
+// Contracts of the table-admin RPCs, garbage collection and server life cycle (area "admin").
+// Checked by /verif/govc. This file contains comments only.
+
+// The registry map is allocated by NewServerWithOptions and never replaced.
+//@ typeinv nonnil server.tables
+// The storage engine is defaulted by NewServerWithOptions when the option is nil.
+//@ typeinv nonnil server.storage
+
+// ---------------------------------------------------------------------------------------------
+// Registry: DeleteTable / GetTable / ListTables / CreateTable
+// ---------------------------------------------------------------------------------------------
+
+//@ func (s *server) DeleteTable
+//@   property C14 C20
+//@   requires req != nil
+//@   modifies mapof(s.tables)
+//@   ensures !old(req.Name in s.tables) ==> result0 == nil && result1 != nil && uf_grpcCode(result1) == codes.NotFound
+//@   ensures old(req.Name in s.tables) ==> result1 == nil && result0 != nil
+//@   ensures !(req.Name in s.tables)
+//@   ensures forall k string :: k != req.Name ==> ((k in s.tables) <==> old(k in s.tables))
+//@   ensures forall k string :: k != req.Name ==> s.tables[k] == old(s.tables[k])
+//@   ensures s.tables == old(s.tables)
+
+//@ func (s *server) GetTable
+//@   property C14 C20
+//@   requires req != nil
+//@   ensures !old(req.Name in s.tables) ==> result0 == nil && result1 != nil && uf_grpcCode(result1) == codes.NotFound
+//@   ensures old(req.Name in s.tables) ==> result1 == nil && result0 != nil && fresh(result0)
+//@   ensures old(req.Name in s.tables) ==> result0.Name == s.tables[req.Name].def.Name
+//@   ensures old(req.Name in s.tables) ==> forall k string :: (k in result0.ColumnFamilies) <==> (k in s.tables[req.Name].def.ColumnFamilies)
+
+//@ func (s *server) ListTables
+//@   property C14 C20
+//@   requires req != nil
+//@   ensures result1 == nil && result0 != nil && fresh(result0)
+//@   ensures forall i :: 0 <= i < len(result0.Tables) ==> result0.Tables[i] != nil
+//@   ensures forall i :: 0 <= i < len(result0.Tables) ==> (result0.Tables[i].Name in s.tables) && hasPrefix(result0.Tables[i].Name, req.Parent + "/tables/")
+//@   ensures forall k string :: (k in s.tables) && hasPrefix(k, req.Parent + "/tables/") ==> exists i :: 0 <= i < len(result0.Tables) && result0.Tables[i].Name == k
+//@   loop 1 invariant res != nil && fresh(res) && (cap(res.Tables) == 0 || fresh(res.Tables))
+//@   loop 1 invariant forall i :: 0 <= i < len(res.Tables) ==> res.Tables[i] != nil && fresh(res.Tables[i])
+//@   loop 1 invariant forall i :: 0 <= i < len(res.Tables) ==> (res.Tables[i].Name in s.tables) && hasPrefix(res.Tables[i].Name, req.Parent + "/tables/")
+//@   loop 1 invariant frameOld(heap("F:adminpb.Table.Name"), heap("T:*adminpb.Table"), heap("F:adminpb.ListTablesResponse.Tables"))
+//@   loop 1 invariant forall k string :: visited1[k] && hasPrefix(k, req.Parent + "/tables/") ==> exists i :: 0 <= i < len(res.Tables) && res.Tables[i].Name == k
+
+//@ func (s *server) CreateTable
+//@   property C14 C20
+//@   requires req != nil
+//@   modifies mapof(s.tables), req.Table, req.Table.Name, req.Table.ColumnFamilies
+//@   ensures s.tables == old(s.tables)
+//@   ensures old((req.Parent + "/tables/" + req.TableId) in s.tables) ==> result0 == nil && result1 != nil && uf_grpcCode(result1) == codes.AlreadyExists
+//@   ensures old((req.Parent + "/tables/" + req.TableId) in s.tables) ==> forall k string :: ((k in s.tables) <==> old(k in s.tables)) && s.tables[k] == old(s.tables[k])
+//@   ensures old((req.Parent + "/tables/" + req.TableId) in s.tables) ==> req.Table == old(req.Table)
+//@   ensures !old((req.Parent + "/tables/" + req.TableId) in s.tables) ==> result1 == nil && result0 != nil && fresh(result0)
+//@   ensures !old((req.Parent + "/tables/" + req.TableId) in s.tables) ==> ((req.Parent + "/tables/" + req.TableId) in s.tables) && fresh(s.tables[req.Parent + "/tables/" + req.TableId])
+//@   ensures !old((req.Parent + "/tables/" + req.TableId) in s.tables) ==> forall k string :: k != req.Parent + "/tables/" + req.TableId ==> ((k in s.tables) <==> old(k in s.tables)) && s.tables[k] == old(s.tables[k])
+//@   ensures !old((req.Parent + "/tables/" + req.TableId) in s.tables) ==> s.tables[req.Parent + "/tables/" + req.TableId].def == req.Table && req.Table.Name == req.Parent + "/tables/" + req.TableId
+//@   ensures !old((req.Parent + "/tables/" + req.TableId) in s.tables) && old(req.Table) != nil ==> req.Table == old(req.Table)
+//@   ensures !old((req.Parent + "/tables/" + req.TableId) in s.tables) && old(req.Table) != nil && old(req.Table.ColumnFamilies) != nil ==> req.Table.ColumnFamilies == old(req.Table.ColumnFamilies)
+//@   ensures !old((req.Parent + "/tables/" + req.TableId) in s.tables) ==> result0.Name == req.Parent + "/tables/" + req.TableId
+//@   ensures !old((req.Parent + "/tables/" + req.TableId) in s.tables) ==> result0.ColumnFamilies != req.Table.ColumnFamilies
+//@   ensures !old((req.Parent + "/tables/" + req.TableId) in s.tables) ==> forall k string :: (k in result0.ColumnFamilies) <==> (k in req.Table.ColumnFamilies)
+//@   ensures !old((req.Parent + "/tables/" + req.TableId) in s.tables) && old(req.Table) != nil ==> forall k string :: (k in result0.ColumnFamilies) <==> old(k in req.Table.ColumnFamilies)
+
+// ---------------------------------------------------------------------------------------------
+// Consistency tokens (read-only; NotFound on an absent table)
+// ---------------------------------------------------------------------------------------------
+
+//@ func (s *server) GenerateConsistencyToken
+//@   property C14 C20
+//@   requires req != nil
+//@   ensures !old(req.Name in s.tables) ==> result0 == nil && result1 != nil && uf_grpcCode(result1) == codes.NotFound
+//@   ensures old(req.Name in s.tables) ==> result1 == nil && result0 != nil && fresh(result0) && result0.ConsistencyToken == "TokenFor-" + req.Name
+
+//@ func (s *server) CheckConsistency
+//@   property C14 C20
+//@   requires req != nil
+//@   ensures !old(req.Name in s.tables) ==> result0 == nil && result1 != nil && uf_grpcCode(result1) == codes.NotFound
+//@   ensures old(req.Name in s.tables) && req.ConsistencyToken != "TokenFor-" + req.Name ==> result0 == nil && result1 != nil && uf_grpcCode(result1) == codes.InvalidArgument
+//@   ensures old(req.Name in s.tables) && req.ConsistencyToken == "TokenFor-" + req.Name ==> result1 == nil && result0 != nil && fresh(result0) && result0.Consistent
+
+// ---------------------------------------------------------------------------------------------
+// DropRowRange
+// ---------------------------------------------------------------------------------------------
+
+//@ spec dropAllReq(req *btapb.DropRowRangeRequest) bool = typeis(req.Target, *btapb.DropRowRangeRequest_DeleteAllDataFromTable) && as(req.Target, *btapb.DropRowRangeRequest_DeleteAllDataFromTable).DeleteAllDataFromTable
+//@ spec dropPrefixReq(req *btapb.DropRowRangeRequest) bool = typeis(req.Target, *btapb.DropRowRangeRequest_RowKeyPrefix) && !isnil(as(req.Target, *btapb.DropRowRangeRequest_RowKeyPrefix).RowKeyPrefix)
+
+// No modifies clause: the registry, every table definition (schema) and every row object reachable from Go memory
+// are unchanged (frame obligations). The contents of the row store behind the Rows interface have no abstract model
+// in bttest_ifaces.spec, so "exactly the rows with the prefix" is stated on the list of keys handed to Rows.Delete.
+//@ func (s *server) DropRowRange
+//@   property C14 C20
+//@   requires req != nil
+//@   ensures !old(req.Name in s.tables) ==> result0 == nil && result1 != nil && uf_grpcCode(result1) == codes.NotFound
+//@   ensures old(req.Name in s.tables) && !dropAllReq(req) && !dropPrefixReq(req) ==> result0 == nil && result1 != nil
+//@   ensures old(req.Name in s.tables) && (dropAllReq(req) || dropPrefixReq(req)) ==> result1 == nil && result0 != nil
+//@   callback $1 invariant forall i :: 0 <= i < len(rowsToDelete) ==> hasPrefix(rowsToDelete[i], prefixBytes)
+//@   callback $1 invariant cap(rowsToDelete) == 0 || fresh(rowsToDelete)
+//@   loop 1 invariant forall i :: 0 <= i < len(rowsToDelete) ==> hasPrefix(rowsToDelete[i], prefixBytes)
+//@   callback $1 invariant frameOld(heap("T:bttest.keyType"))
+//@   loop 1 invariant frameOld(heap("T:bttest.keyType"))
+
+// ---------------------------------------------------------------------------------------------
+// ModifyColumnFamilies
+// ---------------------------------------------------------------------------------------------
+
+//@ spec modIsCreate(m *btapb.ModifyColumnFamiliesRequest_Modification) bool = typeis(m.Mod, *btapb.ModifyColumnFamiliesRequest_Modification_Create) && as(m.Mod, *btapb.ModifyColumnFamiliesRequest_Modification_Create).Create != nil
+//@ spec modIsDrop(m *btapb.ModifyColumnFamiliesRequest_Modification) bool = typeis(m.Mod, *btapb.ModifyColumnFamiliesRequest_Modification_Drop) && as(m.Mod, *btapb.ModifyColumnFamiliesRequest_Modification_Drop).Drop
+//@ spec modIsUpdate(m *btapb.ModifyColumnFamiliesRequest_Modification) bool = typeis(m.Mod, *btapb.ModifyColumnFamiliesRequest_Modification_Update) && as(m.Mod, *btapb.ModifyColumnFamiliesRequest_Modification_Update).Update != nil
+// the modification at index i is the first one of the request that names its family
+//@ spec modFirst(ms []*btapb.ModifyColumnFamiliesRequest_Modification, i int) bool = forall j :: 0 <= j < i ==> ms[j].Id != ms[i].Id
+// no modification at an index in (i, n) names the family of modification i
+//@ spec modLast(ms []*btapb.ModifyColumnFamiliesRequest_Modification, i int, n int) bool = forall j :: i < j < n ==> ms[j].Id != ms[i].Id
+// no modification at an index < n names family k
+//@ spec modUnnamed(ms []*btapb.ModifyColumnFamiliesRequest_Modification, k string, n int) bool = forall j :: 0 <= j < n ==> ms[j].Id != k
+
+// The only Go-heap cell of pre-existing objects that changes is the ColumnFamilies field of the table definition
+// (it is replaced by a new map: the old map object is never written, so an error return leaves the family map
+// untouched). The two bigtablepb heaps are in the footprint only because the contracts of scrubRow / updateRow
+// (used by the purge closure on rows freshly read from the store) declare them wholesale.
+//@ func (s *server) ModifyColumnFamilies
+//@   property C14 C20
+//@   requires req != nil
+//@   modifies s.tables[req.Name].def.ColumnFamilies, heap("F:bigtablepb.Family.Columns"), heap("T:*bigtablepb.Column")
+//@   ensures !old(req.Name in s.tables) ==> result0 == nil && result1 != nil && uf_grpcCode(result1) == codes.NotFound
+//@   ensures result1 != nil ==> result0 == nil
+//@   ensures result1 != nil && old(req.Name in s.tables) ==> s.tables[req.Name].def.ColumnFamilies == old(s.tables[req.Name].def.ColumnFamilies)
+//@   ensures result1 == nil ==> old(req.Name in s.tables) && result0 != nil && fresh(result0)
+//@   ensures result1 == nil ==> s.tables[req.Name].def.ColumnFamilies != nil && fresh(s.tables[req.Name].def.ColumnFamilies)
+//@   ensures result1 == nil ==> forall k string :: old(modUnnamed(req.Modifications, k, len(req.Modifications))) && (k in s.tables[req.Name].def.ColumnFamilies) ==> old(k in s.tables[req.Name].def.ColumnFamilies) && s.tables[req.Name].def.ColumnFamilies[k] == old(s.tables[req.Name].def.ColumnFamilies[k])
+//@   ensures result1 == nil ==> forall k string :: old(modUnnamed(req.Modifications, k, len(req.Modifications))) && old(k in s.tables[req.Name].def.ColumnFamilies) ==> (k in s.tables[req.Name].def.ColumnFamilies)
+//@   ensures result1 == nil ==> forall i :: old(0 <= i < len(req.Modifications) && modLast(req.Modifications, i, len(req.Modifications)) && modIsDrop(req.Modifications[i])) ==> !(old(req.Modifications[i].Id) in s.tables[req.Name].def.ColumnFamilies)
+//@   ensures result1 == nil ==> forall i :: old(0 <= i < len(req.Modifications) && modLast(req.Modifications, i, len(req.Modifications)) && modIsCreate(req.Modifications[i])) ==> (old(req.Modifications[i].Id) in s.tables[req.Name].def.ColumnFamilies) && s.tables[req.Name].def.ColumnFamilies[old(req.Modifications[i].Id)].GcRule == old(as(req.Modifications[i].Mod, *btapb.ModifyColumnFamiliesRequest_Modification_Create).Create.GcRule)
+//@   ensures result1 == nil ==> forall i :: old(0 <= i < len(req.Modifications) && modLast(req.Modifications, i, len(req.Modifications)) && modIsUpdate(req.Modifications[i])) ==> (old(req.Modifications[i].Id) in s.tables[req.Name].def.ColumnFamilies) && s.tables[req.Name].def.ColumnFamilies[old(req.Modifications[i].Id)].GcRule == old(as(req.Modifications[i].Mod, *btapb.ModifyColumnFamiliesRequest_Modification_Update).Update.GcRule)
+//@   ensures old(req.Name in s.tables) ==> forall i :: old(0 <= i < len(req.Modifications) && (modIsDrop(req.Modifications[i]) || modIsUpdate(req.Modifications[i])) && modFirst(req.Modifications, i) && !(req.Modifications[i].Id in s.tables[req.Name].def.ColumnFamilies)) ==> result1 != nil
+//@   ensures old(req.Name in s.tables) ==> forall i :: old(0 <= i < len(req.Modifications) && modIsCreate(req.Modifications[i]) && modFirst(req.Modifications, i) && (req.Modifications[i].Id in s.tables[req.Name].def.ColumnFamilies)) ==> result1 != nil
+//@   ensures old(req.Name in s.tables && len(req.Modifications) > 0 && modIsCreate(req.Modifications[0]) && (req.Modifications[0].Id in s.tables[req.Name].def.ColumnFamilies)) ==> result1 != nil && uf_grpcCode(result1) == codes.AlreadyExists
+//@   loop 1 invariant cfs != nil && fresh(cfs)
+//@   loop 1 invariant frameOld(heap("F:adminpb.ColumnFamily.GcRule"), heap("Md:map[string]*adminpb.ColumnFamily"), heap("Mv:map[string]*adminpb.ColumnFamily"))
+//@   loop 1 invariant forall k string :: (k in cfs) ==> cfs[k] != nil
+//@   loop 1 invariant forall k string :: (k in cfs) ==> obj(cfs[k]) <= alloc()
+//@   loop 1 invariant forall k string :: (k in cfs) ==> old(k in s.tables[req.Name].def.ColumnFamilies) && cfs[k] == old(s.tables[req.Name].def.ColumnFamilies[k])
+//@   loop 1 invariant forall k string :: visited1[k] ==> (k in cfs)
+//@   loop 2 invariant cfs != nil && fresh(cfs)
+//@   loop 2 invariant frameOld(heap("F:adminpb.ColumnFamily.GcRule"), heap("Md:map[string]*adminpb.ColumnFamily"), heap("Mv:map[string]*adminpb.ColumnFamily"))
+//@   loop 2 invariant forall k string :: (k in cfs) ==> cfs[k] != nil
+//@   loop 2 invariant forall k string :: (k in cfs) ==> obj(cfs[k]) <= alloc()
+//@   loop 2 invariant forall k string :: old(modUnnamed(req.Modifications, k, idx2 + 1)) && (k in cfs) ==> old(k in s.tables[req.Name].def.ColumnFamilies) && cfs[k] == old(s.tables[req.Name].def.ColumnFamilies[k])
+//@   loop 2 invariant forall k string :: old(modUnnamed(req.Modifications, k, idx2 + 1)) && old(k in s.tables[req.Name].def.ColumnFamilies) ==> (k in cfs)
+//@   loop 2 invariant forall i :: old(0 <= i <= idx2 && modLast(req.Modifications, i, idx2 + 1) && modIsDrop(req.Modifications[i])) ==> !(old(req.Modifications[i].Id) in cfs)
+//@   loop 2 invariant forall i :: old(0 <= i <= idx2 && modLast(req.Modifications, i, idx2 + 1) && modIsCreate(req.Modifications[i])) ==> (old(req.Modifications[i].Id) in cfs)
+//@   loop 2 invariant forall i :: old(0 <= i <= idx2 && modLast(req.Modifications, i, idx2 + 1) && modIsCreate(req.Modifications[i])) ==> cfs[old(req.Modifications[i].Id)].GcRule == old(as(req.Modifications[i].Mod, *btapb.ModifyColumnFamiliesRequest_Modification_Create).Create.GcRule)
+//@   loop 2 invariant forall i :: old(0 <= i <= idx2 && modLast(req.Modifications, i, idx2 + 1) && modIsUpdate(req.Modifications[i])) ==> (old(req.Modifications[i].Id) in cfs)
+//@   loop 2 invariant forall i :: old(0 <= i <= idx2 && modLast(req.Modifications, i, idx2 + 1) && modIsUpdate(req.Modifications[i])) ==> cfs[old(req.Modifications[i].Id)].GcRule == old(as(req.Modifications[i].Mod, *btapb.ModifyColumnFamiliesRequest_Modification_Update).Update.GcRule)
+//@   loop 2 invariant forall i :: old(0 <= i <= idx2 && (modIsDrop(req.Modifications[i]) || modIsUpdate(req.Modifications[i])) && modFirst(req.Modifications, i)) ==> old(req.Modifications[i].Id in s.tables[req.Name].def.ColumnFamilies)
+//@   loop 2 invariant forall i :: old(0 <= i <= idx2 && modIsCreate(req.Modifications[i]) && modFirst(req.Modifications, i)) ==> !old(req.Modifications[i].Id in s.tables[req.Name].def.ColumnFamilies)
+//@   callback $1 invariant tbl.def.ColumnFamilies == cfs
+//@   callback $1 invariant frameOld(heap("F:adminpb.ColumnFamily.GcRule"), heap("Md:map[string]*adminpb.ColumnFamily"), heap("Mv:map[string]*adminpb.ColumnFamily"))
+
+// ---------------------------------------------------------------------------------------------
+// Garbage collection pass
+// ---------------------------------------------------------------------------------------------
+
+// Either the quiescence guard rejected the pass (only possible when !force) and nothing at all was written,
+// or the pass ran and marked the table clean. The table definition (schema) is not in the footprint. The two
+// bigtablepb heaps are in the footprint only because updateRow's contract declares them wholesale (the rows
+// written are fresh copies delivered by the iterator).
+//@ func (t *table) gc
+//@   property C16 C20
+//@   held t.mu none
+//@   modifies t.lastWriteNanos, heap("F:bigtablepb.Family.Columns"), heap("T:*bigtablepb.Column")
+//@   ensures t.lastWriteNanos == 0 || (!force && t.lastWriteNanos == old(t.lastWriteNanos))
+//@   loop 1 invariant rules != nil && fresh(rules) && held(t.mu) == 2
+//@   loop 1 invariant frameOld(heap("Md:map[string]*adminpb.GcRule"), heap("Mv:map[string]*adminpb.GcRule"))
+//@   loop 1 invariant forall k string :: (k in rules) ==> rules[k] != nil
+//@   loop 1 invariant forall k string :: (k in rules) ==> (k in t.def.ColumnFamilies) && rules[k] == t.def.ColumnFamilies[k].GcRule
+//@   loop 1 invariant forall k string :: visited1[k] && t.def.ColumnFamilies[k].GcRule != nil ==> (k in rules)
+//@   callback $1 invariant held(t.mu) == 2
+//@   callback $1 invariant t.lastWriteNanos == old(t.lastWriteNanos)
+//@   callback $1 invariant frameOld(heap("F:bigtablepb.Column.Cells"), heap("F:bigtablepb.Row.Families"), heap("T:*bigtablepb.Family"), heap("T:bool"), heap("Md:map[string]*adminpb.GcRule"), heap("Mv:map[string]*adminpb.GcRule"))
+
+// The per-row callback: families without a rule keep their columns and cells; in families with a rule every
+// column keeps a prefix of its cells (applyGC); 'changed' is true iff some column lost cells; a changed row is
+// handed to updateRow; the lock is released and re-taken in balance (loop-balance obligation of the caller).
+//@ func (t *table) gc$1
+//@   property C16 C20
+//@   loop 1 invariant frameOld(heap("F:bigtablepb.Row.Families"), heap("T:*bigtablepb.Family"), heap("F:bigtablepb.Family.Columns"), heap("T:*bigtablepb.Column"), heap("T:*bigtablepb.Cell"))
+//@   loop 1 invariant rowOK(r)
+//@   loop 1 invariant forall a, b :: 0 <= a < len(r.Families) && 0 <= b < len(r.Families[a].Columns) && rules[r.Families[a].Name] == nil ==> r.Families[a].Columns[b].Cells == old(r.Families[a].Columns[b].Cells)
+//@   loop 1 invariant forall a, b :: idx1 < a < len(r.Families) && 0 <= b < len(r.Families[a].Columns) ==> r.Families[a].Columns[b].Cells == old(r.Families[a].Columns[b].Cells)
+//@   loop 1 invariant forall a, b :: 0 <= a < len(r.Families) && 0 <= b < len(r.Families[a].Columns) ==> len(r.Families[a].Columns[b].Cells) <= old(len(r.Families[a].Columns[b].Cells))
+//@   loop 1 invariant changed <==> (exists a, b :: 0 <= a <= idx1 && 0 <= b < len(r.Families[a].Columns) && len(r.Families[a].Columns[b].Cells) != old(len(r.Families[a].Columns[b].Cells)))
+//@   loop 2 invariant frameOld(heap("F:bigtablepb.Row.Families"), heap("T:*bigtablepb.Family"), heap("F:bigtablepb.Family.Columns"), heap("T:*bigtablepb.Column"), heap("T:*bigtablepb.Cell"))
+//@   loop 2 invariant rowOK(r) && 0 <= idx1 + 1 < len(r.Families) && fam == r.Families[idx1 + 1] && gcRule != nil && gcRule == rules[fam.Name]
+//@   loop 2 invariant forall a, b :: 0 <= a < len(r.Families) && 0 <= b < len(r.Families[a].Columns) && rules[r.Families[a].Name] == nil ==> r.Families[a].Columns[b].Cells == old(r.Families[a].Columns[b].Cells)
+//@   loop 2 invariant forall a, b :: idx1 + 1 < a < len(r.Families) && 0 <= b < len(r.Families[a].Columns) ==> r.Families[a].Columns[b].Cells == old(r.Families[a].Columns[b].Cells)
+//@   loop 2 invariant forall b :: idx2 < b < len(fam.Columns) ==> fam.Columns[b].Cells == old(fam.Columns[b].Cells)
+//@   loop 2 invariant forall a, b :: 0 <= a < len(r.Families) && 0 <= b < len(r.Families[a].Columns) ==> len(r.Families[a].Columns[b].Cells) <= old(len(r.Families[a].Columns[b].Cells))
+//@   loop 2 invariant changed <==> ((exists a, b :: 0 <= a <= idx1 && 0 <= b < len(r.Families[a].Columns) && len(r.Families[a].Columns[b].Cells) != old(len(r.Families[a].Columns[b].Cells))) || (exists b :: 0 <= b <= idx2 && len(fam.Columns[b].Cells) != old(len(fam.Columns[b].Cells))))
+
+// ---------------------------------------------------------------------------------------------
+// Activity clocks (lock-free; atomic loads are modelled as arbitrary values written by other threads)
+// ---------------------------------------------------------------------------------------------
+
+//@ func (t *table) read
+//@   property C16 C20
+//@   modifies t.lastReadNanos
+//@   loop 1 modifies t.lastReadNanos
+
+//@ func (t *table) write
+//@   property C16 C20
+//@   modifies t.lastWriteNanos
+//@   loop 1 modifies t.lastWriteNanos
+
+// ---------------------------------------------------------------------------------------------
+// Server life cycle
+// ---------------------------------------------------------------------------------------------
+
+// A *Server is only produced by NewServerWithOptions, which fills all three fields.
+//@ typeinv nonnil Server.s
+//@ typeinv nonnil Server.srv
+//@ typeinv nonnil Server.l
+
+// Close takes the registry lock only to snapshot the tables, then each table lock in turn (never two locks at
+// once); the registry itself is not changed.
+//@ func (s *Server) Close
+//@   property C20 C08
+//@   requires nolocks()
+//@   modifies *
+//@   ensures forall k string :: (k in s.s.tables) <==> old(k in s.s.tables)
+//@   loop 1 invariant cap(tbls) == 0 || fresh(tbls)
+//@   loop 1 invariant forall i :: 0 <= i < len(tbls) ==> tbls[i] != nil
+//@   loop 1 invariant held(s.s.mu) == 2
+//@   loop 2 invariant forall i :: 0 <= i < len(tbls) ==> tbls[i] != nil
+//@   loop 2 invariant nolocks()
+
+// Only the init-from-storage loop matters here: every table definition reported by the storage is opened and
+// registered under its own name. Goroutine launches (Serve, gcloop) are ignored by the verifier.
+//@ func NewServerWithOptions
+//@   property C08 C14 C20
+//@   modifies *
+//@   ensures result1 == nil ==> result0 != nil && fresh(result0) && result0.s != nil && result0.s.tables != nil && result0.s.storage != nil
+//@   ensures result1 != nil ==> result0 == nil
+//@   loop 1 invariant s != nil && fresh(s) && s.s != nil && fresh(s.s) && s.s.tables != nil && fresh(s.s.tables) && s.s.storage != nil
+//@   loop 1 invariant forall k string :: (k in s.s.tables) ==> s.s.tables[k] != nil
+// (the slice returned by GetTables has no name in the source, so "every definition seen so far is registered"
+// cannot be written as an invariant over it)
